@@ -152,7 +152,7 @@ def quat_trans(q, v):
     # Transforms the vector v from the global frame to a frame having an orientation described by q.
     v_T = np.transpose(v)
     T = np.zeros((4,*v_T.shape[1:]))
-    v_trans = np.zeros_like(v_T)
+    v_trans = np.zeros_like(v_T, dtype=float) # (an integer-valued input vector must not truncate the result)
 
     T[0] = -v_T[0]*q[1] - v_T[1]*q[2] - v_T[2]*q[3]
     T[1] =  v_T[0]*q[0] + v_T[1]*q[3] - v_T[2]*q[2]
@@ -170,7 +170,7 @@ def quat_inv_trans(q, v):
     # Transforms the vector v from a frame having an orientation described by q to the global frame.
     v_T = np.transpose(v)
     T = np.zeros((4,*v_T.shape[1:]))
-    v_trans = np.zeros_like(v_T)
+    v_trans = np.zeros_like(v_T, dtype=float) # (an integer-valued input vector must not truncate the result)
 
     T[0] =  v_T[0]*q[1] + v_T[1]*q[2] + v_T[2]*q[3]
     T[1] =  v_T[0]*q[0] - v_T[1]*q[3] + v_T[2]*q[2]
